@@ -3,6 +3,7 @@
  * reheap, heapify, std::vector push_back/pop_back) on one queue that holds N0 elements pushed sequentially before.
  * Scenario (concrete): Kt = operation of thread t (0 push, 1 try_pop) [NOPS==2: Kt / Lt = first / second operation], N0.
  * Symbolic: every pushed priority (domain 0..2, duplicates allowed), the schedule.
+ * -DSKEL / -DCONC / -DWANT_ORDER / -DWANT_POP: hand-over scenarios (result written before status published), see main().
  * Oracles: (1) blocked-state oracle: no thread spins forever on its op status / handler_busy (lost operation);
  *          (2) linearizability of the recorded invocation/response history against a sequential max-priority-queue;
  *          (3) final state: multiset = initial + pushed - popped, heap invariant, mark == size == my_size, aggregator idle. */
@@ -41,7 +42,12 @@ struct S_class_tbb__detail__d1__concurrent_priority_queue qobj;   /* the queue o
 static int h_kind[NH], h_val[NH], h_ok[NH], h_inv[NH], h_res[NH], h_done[NH];
 static int clk;
 void vp_inv(u32 tid, u32 slot, u32 kind, u32 val) { h_kind[slot] = (int)kind; if (kind == 0) h_val[slot] = (int)val; h_inv[slot] = ++clk; h_res[slot] = 1 << 20; }
-void vp_res(u32 tid, u32 slot, u32 ok, u32 val) { h_ok[slot] = (int)ok; if (h_kind[slot] == 1) h_val[slot] = (int)val; h_res[slot] = ++clk; h_done[slot] = 1; }
+void vp_res(u32 tid, u32 slot, u32 ok, u32 val) {
+  h_ok[slot] = (int)ok; if (h_kind[slot] == 1) h_val[slot] = (int)val; h_res[slot] = ++clk; h_done[slot] = 1;
+  /* checked at once (not only when every thread has returned): the caller's output variable was preset to -1, which is never in
+     the queue; `val` is what the caller read from it immediately after try_pop returned */
+  if (h_kind[slot] == 1 && ok) VP_ASSERT((int)val >= 0 && (int)val < DOM, "try_pop returned true with its output not written yet / a value that was never pushed");
+}
 
 static int init_cnt[DOM];
 
@@ -89,18 +95,40 @@ static int linearizable(void) {
 #define THR(s) vp_thr_two_##s
 #endif
 static int nd_val(void) { return (int)vp_nd_range(0, DOM - 1); }
+/* -DCONC: priorities concrete per query (IV0, IV1: initial elements; PV0..PV2: value pushed by thread a..c) */
+#ifdef CONC
+#ifndef IV1
+#define IV1 0
+#endif
+#ifndef PV0
+#define PV0 0
+#endif
+#ifndef PV1
+#define PV1 0
+#endif
+#ifndef PV2
+#define PV2 0
+#endif
+static const int init_v[2] = { IV0, IV1 };
+#define INITV(i) init_v[i]
+#define PUSHV(t) (PV##t)
+#else
+#define INITV(i) nd_val()
+#define PUSHV(t) nd_val()
+#endif
+static u64 pend_seen[3];           /* SKEL: pending_operations word after each thread's first slice (enqueue order evidence) */
 
 int main(void) {
   VP_ASSERT(vp_q_sizeof() <= sizeof(qobj), "harness: queue object larger than its buffer");
   for (int i = 0; i < NH; i++) { h_kind[i] = 2; h_res[i] = 1 << 20; }   /* 2 = no operation in this slot */
   vp_q_init(Q, CAP);
   VP_ASSERT(vp_q_cap(Q) >= CAP, "reserve did not provide the requested capacity");
-  for (int i = 0; i < N0; i++) { int v = nd_val(); init_cnt[v]++; vp_q_push(Q, v); }
+  for (int i = 0; i < N0; i++) { int v = INITV(i); init_cnt[v]++; vp_q_push(Q, v); }
   VP_ASSERT(vp_q_dsize(Q) == N0 && vp_q_mark(Q) == N0 && vp_q_mysize(Q) == N0, "pre-state: sequential pushes not all stored/heapified");
 #if NOPS == 1
-  THR(a_start)(Q, 0, K0, nd_val()); THR(b_start)(Q, 1, K1, nd_val());
+  THR(a_start)(Q, 0, K0, PUSHV(0)); THR(b_start)(Q, 1, K1, PUSHV(1));
 #if NT == 3
-  THR(c_start)(Q, 2, K2, nd_val());
+  THR(c_start)(Q, 2, K2, PUSHV(2));
 #endif
 #else
   THR(a_start)(Q, 0, K0, nd_val(), L0, nd_val()); THR(b_start)(Q, 1, K1, nd_val(), L1, nd_val());
@@ -108,12 +136,35 @@ int main(void) {
   THR(c_start)(Q, 2, K2, nd_val(), L2, nd_val());
 #endif
 #endif
+#ifdef SKEL
+  /* schedule skeleton "greedy waiters": in each of ROUNDS rounds thread a stops at a solver-chosen point, then every other thread
+     runs as far as it can (to its return or to a spin wait); a last forced round for everybody. Quantifies over every preemption
+     point of a (ROUNDS of them) with the others reacting at once: the shape of "the waiter is scheduled right after store X". */
+  for (int r = 0; r < ROUNDS; r++) {
+    vp_cur = 0; VP_RUN(THR(a)) if (r == 0) pend_seen[0] = vp_q_pending(Q);
+    vp_cur = 1; VP_RUNMAX(THR(b)) if (r == 0) pend_seen[1] = vp_q_pending(Q);
+#if NT == 3
+    vp_cur = 2; VP_RUNMAX(THR(c)) if (r == 0) pend_seen[2] = vp_q_pending(Q);
+#endif
+#ifdef WANT_ORDER   /* scenario: all operations were enqueued in the order a, b(, c) before a (the oldest = the handler) took the list:
+                       one batch, handled by a, processed newest first; b (and c) are waiters */
+    if (r == 0) {
+      __CPROVER_assume(pend_seen[0] != 0 && pend_seen[1] != 0 && pend_seen[1] != pend_seen[0]);
+#if NT == 3
+      __CPROVER_assume(pend_seen[2] != 0 && pend_seen[2] != pend_seen[1]);
+#endif
+      __CPROVER_assume(vp_q_busy(Q) == 0);          /* a has not started handling yet */
+    }
+#endif
+  }
+#else
   for (int r = 0; r < ROUNDS; r++) {
     VP_RUN(THR(a)) VP_RUN(THR(b))
 #if NT == 3
     VP_RUN(THR(c))
 #endif
   }
+#endif
 #ifdef NOQUIESCE   /* safety-only variant: ROUNDS free slices per thread [+ one forced slice each with -DFORCED1], all threads must have returned */
 #ifdef FORCED1
   vp_cur = 0; VP_RUNMAX(THR(a)) vp_cur = 1; VP_RUNMAX(THR(b))
@@ -163,6 +214,9 @@ int main(void) {
     VP_ASSERT(vp_q_pending(Q) == 0 && vp_q_busy(Q) == 0, "aggregator not idle after all operations returned");
   }
   }
+#ifdef WANT_POP   /* witness condition of the scenario: thread WANT_POP's pop returned WANT_VAL (see spec: which code path that implies) */
+  __CPROVER_assume(h_ok[WANT_POP] && h_val[WANT_POP] == WANT_VAL);
+#endif
   VP_REACHED();
   return 0;
 }
